@@ -293,12 +293,12 @@ def check_step(tb, ta, req, result):
     top, meta, cleared = request_demands(req)
     nested = any(has_nested_map(v) for v in req.values()) or any(
         has_nested_map(mv) for k, v in req.items() if route(k, v) == "metadict" and not is_sentinel(v) for mv in v.values())
-    if result.get("status") != "success":
-        fails.append((f"changes request refused: {str(result.get('errors'))[:160]}", None))
-        return fails, notes, None
     db, eb = strict_parse(tb)
     if db is None:
-        notes.append("skip:before-unreadable")
+        notes.append("skip:before-unreadable")      # left behind by an earlier call (findings nested-map / meta-key)
+        return fails, notes, None
+    if result.get("status") != "success":
+        fails.append((f"changes request refused: {str(result.get('errors'))[:160]}", None))
         return fails, notes, None
     da, ea = strict_parse(ta)
     if da is None:
@@ -485,6 +485,30 @@ class ReqGen:
             return None
         return self.value()
 
+    def set_request(self, nd, original):
+        """a value request on one of the document's own top-level assignment keys whose ORIGINAL value can be requested
+        again later; -> (request, key) or (None, None)"""
+        r = self.r
+        cands = []
+        for n in original["sections"]:
+            if n[0] == "a" and n[1] and py_of_neutral(n[2])[0] and any(m[0] == "a" and m[1] == n[1] for m in nd["sections"]):
+                cands.append(n[1])
+        if not cands:
+            return None, None
+        k = r.choice(cands)
+        v = self.scalar()
+        req = {k: v}
+        if r.random() < 0.3:
+            req["META." + r.choice(META_FRESH)] = self.scalar()
+        return req, k
+
+    def restore_request(self, original, key):
+        """sets `key` back to the value its first assignment had in the original document"""
+        for n in original["sections"]:
+            if n[0] == "a" and n[1] == key:
+                return {key: py_of_neutral(n[2])[1]}
+        return None
+
     def request(self, nd):
         r = self.r
         own = [n[1] for n in nd["sections"] if n[0] == "a"]
@@ -531,10 +555,87 @@ class ReqGen:
 
 
 # ---------------------------------------------------------------------------------------------------------------------
+# sessions: several calls through ONE long-lived WriteTool instance (as the MCP server holds it), on one or two files,
+# with dry runs and reverts so that the same baseline bytes recur
+# ---------------------------------------------------------------------------------------------------------------------
+SESSION_PLANS = [
+    ["dry", "real"], ["dry", "real", "real"], ["real", "dry", "real"],
+    ["set", "restore", "real"], ["set", "restore", "dry", "real"], ["set", "set", "restore", "real"],
+    ["real", "revert", "real"], ["dry", "revert", "real"], ["real", "real", "revert", "real"],
+    ["realA", "realB", "realA"], ["realA", "dryB", "realB", "realA"], ["setA", "realB", "restoreA", "realB", "realA"],
+    ["dryA", "realB", "realA"], ["realA", "revertA", "realB", "realA"],
+]
+
+
+def py_of_neutral(v):
+    """the request value that stands for a neutral AST value (None if it has none: zones, holographic values)"""
+    k = v[0]
+    if k == "null":
+        return True, None
+    if k == "bool":
+        return True, v[1]
+    if k == "int":
+        return True, int(v[1])
+    if k == "float":
+        x = float(v[1])
+        return (x == x and x not in (float("inf"), float("-inf"))), x
+    if k == "str":
+        return True, v[1]
+    if k == "list":
+        items = [py_of_neutral(x) for x in v[1]]
+        return all(ok for ok, _ in items), [x for _, x in items]
+    return False, None
+
+
+def session_step(tool, loop, paths, history, st):
+    """execute one recorded step; -> (text before, text after, request | None, result | None)"""
+    i = st["file"]
+    tb = read_file(paths[i])
+    if st["op"] == "revert":
+        with open(paths[i], "w", encoding="utf-8", newline="") as f:
+            f.write(history[i][st["to"]])
+        history[i].append(history[i][st["to"]])
+        return tb, history[i][-1], None, None
+    req = {k: v for k, v in st["items"]}
+    kw = {"corrections_only": True} if st["op"] == "dry" else {}
+    res = loop.run_until_complete(tool.execute(target_path=paths[i], changes=copy.deepcopy(req), **kw))
+    ta = read_file(paths[i])
+    history[i].append(ta)
+    return tb, ta, req, res
+
+
+def check_session_step(st, tb, ta, req, res):
+    """-> (fails, notes, neutral doc after | None) for one executed step of a session"""
+    if st["op"] == "revert":
+        return [], [], None
+    if st["op"] == "dry":
+        fails = []
+        if ta != tb:
+            fails.append(("dry run (corrections_only) changed the file", None))
+        return fails, [], None
+    return check_step(tb, ta, req, res)
+
+
+def run_recorded_session(tool, loop, tmp, session, tag="r"):
+    """replay a recorded session on one tool instance; -> [(step index, what, finding)]"""
+    paths = [os.path.join(tmp, f"{tag}{i}.oct.md") for i in range(len(session["init_texts"]))]
+    history = [[t] for t in session["init_texts"]]
+    for pth, t in zip(paths, session["init_texts"]):
+        with open(pth, "w", encoding="utf-8", newline="") as f:
+            f.write(t)
+    out = []
+    for n, st in enumerate(session["steps"]):
+        tb, ta, req, res = session_step(tool, loop, paths, history, st)
+        fails, _, _ = check_session_step(st, tb, ta, req, res)
+        out += [(n, what, fid) for what, fid in fails]
+    return out
+
+
+# ---------------------------------------------------------------------------------------------------------------------
 # worker: runs sequences through WriteTool in a private temp dir
 # ---------------------------------------------------------------------------------------------------------------------
 def _work(args):
-    seed, docs, nseq, ok_strings = args
+    seed, docs, nseq, ok_strings, nsess = args
     from octave_mcp.core.emitter import emit
     from octave_mcp.core.parser import parse
     from octave_mcp.mcp.write import WriteTool
@@ -542,7 +643,9 @@ def _work(args):
     rg = ReqGen(rng, set(ok_strings) if ok_strings is not None else None)
     tmp = scratch_dir("c18_")
     loop = asyncio.new_event_loop()
-    out = {"fails": [], "hist": [], "corr": [], "count": 0, "nontrivial": [], "samples": []}
+    out = {"fails": [], "hist": [], "corr": [], "count": 0, "nontrivial": [], "samples": [], "session_calls": 0}
+    server_tool = WriteTool()          # ONE instance for every session of this worker, as mcp/server.py holds it
+    prev_text = None
     try:
         p = os.path.join(tmp, "doc.oct.md")
         for d in docs:
@@ -603,6 +706,82 @@ def _work(args):
                     out["nontrivial"].append(json.dumps([t0, reqs], sort_keys=True, default=str))
                 if len(out["samples"]) < 2 and steps:
                     out["samples"].append({"initial_text": t0, "requests": reqs, "final_text": steps[-1]})
+            # ---- sessions through the long-lived instance -------------------------------------------------------------
+            for sn in range(nsess):
+                plan = rng.choice(SESSION_PLANS)
+                two = any(x.endswith(("A", "B")) for x in plan)
+                other = t0 if (prev_text is None or rng.random() < 0.5) else prev_text
+                inits = [t0, other] if two else [t0]
+                paths = [os.path.join(tmp, f"sess{i}.oct.md") for i in range(len(inits))]
+                for pth, t in zip(paths, inits):
+                    with open(pth, "w", encoding="utf-8", newline="") as f:
+                        f.write(t)
+                history = [[t] for t in inits]
+                originals, nds = [], []
+                for t in inits:
+                    dx, _ = strict_parse(t)
+                    originals.append(astcodec.doc_to_neutral(dx) if dx is not None else None)
+                    nds.append(originals[-1])
+                if any(o is None for o in originals):
+                    continue
+                set_key = [None] * len(inits)
+                steps = []
+                for kind in plan:
+                    fi = 1 if kind.endswith("B") else 0
+                    base = kind.rstrip("AB")
+                    st = None
+                    if base == "revert":
+                        st = {"op": "revert", "file": fi, "to": rng.randrange(len(history[fi]))}
+                    elif base == "set":
+                        req, k = rg.set_request(nds[fi], originals[fi])
+                        if req is not None:
+                            set_key[fi] = k
+                            st = {"op": "real", "file": fi, "items": [[a, b] for a, b in req.items()]}
+                    elif base == "restore" and set_key[fi] is not None:
+                        req = rg.restore_request(originals[fi], set_key[fi])
+                        if req is not None:
+                            st = {"op": "real", "file": fi, "items": [[a, b] for a, b in req.items()]}
+                    if st is None:
+                        req = rg.request(nds[fi])
+                        st = {"op": "dry" if base == "dry" else "real", "file": fi, "items": [[a, b] for a, b in req.items()]}
+                    steps.append(st)
+                    try:
+                        tb, ta, req, res = session_step(server_tool, loop, paths, history, st)
+                    except Exception as e:  # noqa
+                        out["fails"].append(({"instance": "long-lived", "session": {"init_texts": inits, "steps": list(steps)}},
+                                             f"octave_write raised {type(e).__name__}: {e}"[:200], None))
+                        break
+                    out["hist"].append(("session_step", st["op"] + ("/second-file" if fi else "")))
+                    if st["op"] == "revert":
+                        dx, _ = strict_parse(ta)
+                        if dx is not None:
+                            nds[fi] = astcodec.doc_to_neutral(dx)
+                        continue
+                    out["session_calls"] += 1
+                    out["count"] += 1
+                    fails, notes, na = check_session_step(st, tb, ta, req, res)
+                    for nt in notes:
+                        out["hist"].append(("notes", nt))
+                    for what, fid in fails:
+                        out["fails"].append(({"instance": "long-lived (one WriteTool for the whole session, as the MCP server holds it)",
+                                              "session": {"init_texts": inits, "steps": list(steps)}, "failing_step": len(steps) - 1,
+                                              "text_before": tb, "request": req, "request_items": st["items"], "text_after": ta},
+                                             what, fid))
+                    if st["op"] == "real":
+                        try:
+                            dbb = parse(tb)
+                            nbb = astcodec.doc_to_neutral(dbb)
+                            ri = WriteTool()._apply_changes(dbb, copy.deepcopy(req))
+                            out["corr"].append((nbb, req, astcodec.doc_to_neutral(ri), emit(ri), ta))
+                        except Exception as e:  # noqa
+                            out["hist"].append(("notes", "corr-skip:" + type(e).__name__))
+                        if na is not None:
+                            nds[fi] = na
+                out["hist"].append(("session_plan", ",".join(plan)))
+                out["nontrivial"].append(json.dumps([inits, steps], sort_keys=True, default=str))
+                if len(out["samples"]) < 3 and sn == 0 and len(steps) >= 3 and not any(sm.get("session") for sm in out["samples"]):
+                    out["samples"].append({"session": {"init_texts": inits, "steps": steps}, "final_texts": [h[-1] for h in history]})
+            prev_text = t0
     finally:
         loop.close()
         shutil.rmtree(tmp, ignore_errors=True)
@@ -924,7 +1103,11 @@ def run(ctx):
         "empty name), META{...} (merge, with inner DELETE), META{DELETE}, META with a non-dict value; operations DELETE sentinel (also "
         "with extra keys), null, value of every kind (strings from the clean pool and reserved-looking ones, ints, floats, bools, lists, "
         "dicts, nested lists/dicts, empty list/dict/string, sentinel look-alikes); omit = every key a request does not mention. One case = "
-        "one call. A: Absent inserted at every position (top-level, block/section child, list item, map value, all items, META value, nested "
+        "one call. Every document is amended (i) by 2 sequences with a fresh WriteTool per call and (ii) by 2 sessions through ONE "
+        "WriteTool instance that lives for the whole worker (as mcp/server.py holds it): 2-5 steps from 14 plans mixing real calls, dry "
+        "runs (corrections_only=True, file must stay byte-identical), set-then-restore of an own key (the same baseline bytes recur), "
+        "reverting the file to any earlier content, and two target files (same or different initial bytes) interleaved on that instance; "
+        "after every step the same frame / parsed-state / model checks. A: Absent inserted at every position (top-level, block/section child, list item, map value, all items, META value, nested "
         "META value, all META) of wild and content-model documents. N: null/\"\"/[] at 7 positions x paddings. non-trivial = distinct "
         "(initial text, request sequence) with a non-empty request on a document of >=2 nodes, or distinct Absent variant text.")
     tmp = scratch_dir("c18m_")
@@ -981,7 +1164,8 @@ def run(ctx):
         oks = sorted(oks) if oks is not None else None
         nproc = 6 if ctx.quick() else 14
         per = max(1, (len(docs) + nproc * 4 - 1) // (nproc * 4))
-        jobs = [(ctx.rng.getrandbits(48), docs[i:i + per], nseq, oks) for i in range(0, len(docs), per)]
+        nsess = ctx.scale(2, 2)
+        jobs = [(ctx.rng.getrandbits(48), docs[i:i + per], nseq, oks, nsess) for i in range(0, len(docs), per)]
         if nproc == 1:
             results = [_work(j) for j in jobs]
         else:
@@ -989,6 +1173,7 @@ def run(ctx):
                 results = pool.map(_work, jobs)
         corr = []
         ctx.extra["changes_calls"] = sum(r["count"] for r in results)
+        ctx.extra["changes_calls_long_lived_instance"] = sum(r["session_calls"] for r in results)
         for r in results:
             ctx.count(r["count"])
             for name, b in r["hist"]:
@@ -996,7 +1181,7 @@ def run(ctx):
             for k in r["nontrivial"]:
                 ctx.nontrivial(k)
             for s in r["samples"]:
-                ctx.sample(s, cap=3)
+                ctx.sample(s, cap=4)
             for case, what, fid in r["fails"]:
                 ctx.property_failure(case, what, finding=fid)
             corr += r["corr"]
@@ -1217,6 +1402,8 @@ def run(ctx):
     ctx.assumptions += [
         "request values are JSON values (null, bool, int, float, str, list, dict with unique string keys); LiteralZoneValue "
         "instances cannot occur in a JSON request and are outside the model of _normalize_value_for_ast",
+        "the long-lived-instance sessions assume nothing about tool state: each call is checked against its own before-bytes, so any "
+        "state kept between calls that shows in the file is a frame/state failure of that step",
         "a sequence of octave_write calls is modelled as fold_left apply_changes: the re-read between two calls is the identity on "
         "the C01/C02 domain (checked per case: emit(parse(text)) == text and parse(text) == document)",
         "an inline map [k::v,k2::w] is read back as a list of single-pair maps (surface grammar); requested dict values are compared "
@@ -1230,6 +1417,18 @@ def replay(ctx, case):
     """./check C18 --replay <file>: re-run a recorded changes case on the implementation; 1 = still failing"""
     from octave_mcp.mcp.write import WriteTool
     c = case.get("case", case)
+    if "session" in c:
+        # the whole recorded session through ONE WriteTool instance (the failing step may depend on the earlier ones)
+        tmp = scratch_dir("c18r_")
+        loop = asyncio.new_event_loop()
+        try:
+            bad = run_recorded_session(WriteTool(), loop, tmp, c["session"])
+            for n, what, fid in bad:
+                print(f"FAIL at step {n} ({c['session']['steps'][n]}):", what, fid or "")
+            return 1 if bad else 0
+        finally:
+            loop.close()
+            shutil.rmtree(tmp, ignore_errors=True)
     if "doc" in c and "request" not in c:
         what, fid, t = check_absent(c["doc"])
         print(what or "no failure", "\n", t)
